@@ -32,6 +32,7 @@ func (handlerSelf *HandlerDef) Post(fn func()) {
 	if handlerSelf.isClosed {
 		return
 	}
+	verifPoint("handler.post.afterClosedCheck", handlerSelf)
 
 	handlerSelf.ch <- fn
 }
@@ -39,8 +40,10 @@ func (handlerSelf *HandlerDef) Post(fn func()) {
 // Close Close the Handler
 func (handlerSelf *HandlerDef) Close() {
 	handlerSelf.isClosed = true
+	verifPoint("handler.close.flagSet", handlerSelf)
 
 	close(handlerSelf.ch)
+	verifPoint("handler.close.closed", handlerSelf)
 }
 
 func (handlerSelf *HandlerDef) run() {
